@@ -77,6 +77,12 @@ CHECKS["C18"] = dict(
     text="~1,900 programs per quick run; per program: display -> parse -> display fixpoint after one round and isomorphism (canonical ids incl. user types), ContractClass felt round trip equality, VersionedProgram JSON equality (value, text, printed form), and byte-identical CASM for raw ids / debug names / canonical ids / parsed / felt-round-tripped versions.",
     note="Trusted: CanonicalReplacer plus my user-type renaming as the isomorphism key; identity of ids ignores debug names by design of the code base.")
 
+CHECKS["C16"] = dict(
+    level="exploration", design="DESIGN.md 3/C16",
+    technique="differential property-based testing: exhaustive enumeration of CASM instruction shapes x boundary offsets / immediates, one cairo-vm step over encode(assemble(i)) from seeded random machine states against an own reference step written from the printed meaning; op_size equality",
+    text="116 shapes, ~29,000 instruction instances, 6 (quick) / 40 (thorough) machine states each; outcome, pc, ap, fp and the set of newly written cells (write-once deduction of destination or operand) must agree; encoded length equals op_size. QM31 / Blake2s extension forms are size-checked only.",
+    note="Trusted: cairo-vm's step as the executing machine (the property is stated against it). Pairs where the printed meaning does not determine the outcome (operand aliasing the destination, pointer x pointer arithmetic) are skipped and counted.")
+
 PENDING_REASON = "check not built yet in this session (planned in DESIGN.md section 3; the property itself is amenable to the technique)"
 
 def main():
